@@ -190,12 +190,13 @@ example : WF .npm { sys := .npm, num := [1, 2, 3], pre := [[97]] } ∧
     vcompare { sys := .npm, num := [1, 2, 3], pre := [[97]] } { sys := .npm, num := [1, 2, 3] } = .ok (-1) := by
   refine ⟨⟨rfl, rfl⟩, ⟨rfl, rfl⟩, by decide +kernel⟩
 
-/-- Tie to the code (regenerated): the only mentions of package-level variables outside
-`init` that are not plain reads are two `&zeroPEP440` in `pep440Extension.compare`, whose
-pointee is only read (inspected by hand; any new write changes this list and breaks the
-theorem). -/
-theorem no_global_writes :
-    Gen.SemverGlobals.writes = ["pep440.go:compare:zeroPEP440:addr", "pep440.go:compare:zeroPEP440:addr"] := by
+/-- Tie to the code (regenerated): outside `init` no package-level variable of util/semver is
+assigned, incremented, or written through an index/field path, and every address taken of one
+(today: two `&zeroPEP440` in `pep440Extension.compare`) is followed by the translator through
+locals, parameters and receivers of the package and only ever read. The statement names no
+identifier of /repo: any new write (or a pointer the translator cannot follow) makes the list
+non-empty and breaks the theorem. -/
+theorem no_global_writes : Gen.SemverGlobals.writes = [] := by
   decide
 
 end DepsDev.Props.C01
